@@ -29,10 +29,15 @@ Definition law_not_less_task (up vc rq irq : res) : bool :=
 
 (* the same statement in kube-scheduler's own units, without volcano's
    NewResource on the upstream side: kcpu / kmem are MilliCPU / Memory of
-   k8s.io/kubernetes/pkg/scheduler/framework PodInfo.CalculateResource *)
-Definition law_kube_units (kcpu kmem : Z) (vc rq : res) : bool :=
+   k8s.io/kubernetes/pkg/scheduler/framework PodInfo.CalculateResource, and
+   [ksc] lists (name, amount) of its EphemeralStorage / ScalarResources entries
+   (kube keeps them as Value(), whole units) for the names volcano tracks and
+   whose amounts in the pod are whole units: volcano keeps milli-units there *)
+Definition law_kube_units (kcpu kmem : Z) (ksc : list (positive * Z)) (vc rq : res) : bool :=
   bool_decide (cpu vc = kcpu) && bool_decide (mem vc = kmem) &&
-  bool_decide (cpu rq = kcpu) && bool_decide (mem rq = kmem).
+  bool_decide (cpu rq = kcpu) && bool_decide (mem rq = kmem) &&
+  forallb (fun kv => bool_decide (sget vc (fst kv) = 1000 * snd kv) &&
+                     bool_decide (sget rq (fst kv) = 1000 * snd kv)) ksc.
 
 (* the whole reservation of a task, in every phase: Resreq, InitResreq and the
    vector GetPodResourceRequest returns are all upstream's request + pods, and
@@ -40,3 +45,13 @@ Definition law_kube_units (kcpu kmem : Z) (vc rq : res) : bool :=
 Definition law_task_reservation (up vc rq irq : res) (best_effort : bool) : bool :=
   law_task_request up vc rq irq &&
   Bool.eqb best_effort (is_empty 1 (add_scalar up pods_name 1)).
+
+(* what the scheduler CACHE charges (SchedulerCache.NewTaskInfo): [keys] are the
+   attach-limit names the harness's volume world resolves the pod's CSI volumes
+   to (one entry per counted volume; known to the harness independently of the
+   code under test).  The charged vector is upstream's request + pods, plus the
+   number of volumes on each attach-limit name; Resreq and InitResreq agree;
+   BestEffort is the emptiness of that vector. *)
+Definition law_cache_reservation (up crq cirq : res) (best_effort : bool) (keys : list positive) : bool :=
+  let want := cache_add_csi (add_scalar up pods_name 1) keys in
+  bool_decide (crq = want) && bool_decide (cirq = want) && Bool.eqb best_effort (is_empty 1 want).
